@@ -1059,6 +1059,56 @@ def scenario_diag(rng, props, fails, stats):
     return {"n": n, "pairs": m}
 
 
+def scenario_bench(rng, props, fails, stats):
+    """C19: exported gradients against an 8th-order central difference; shapes; purity (no hidden state)."""
+    import lbfgsb.benchmarks as Bm
+    names = ["ackley", "beale", "griewank", "quartic", "rastrigin", "rosenbrock", "sphere", "styblinski_tang"]
+    name = names[int(rng.integers(0, len(names)))]
+    f, g = getattr(Bm, name), getattr(Bm, name + "_grad")
+    n = int(rng.integers(2 if name in ("beale", "rosenbrock") else 1, 13))
+    x = rng.uniform(-5, 5, n)
+    if name == "ackley":
+        x[np.abs(x) < 0.3] += 0.5
+    if name == "griewank" and rng.random() < 0.5:
+        i = int(rng.integers(0, n))
+        k = int(rng.integers(-1, 1))
+        v = math.sqrt(i + 1) * (math.pi / 2 + k * math.pi)
+        if abs(v) <= 5:
+            x[i] = v                      # a zero of one cosine factor: the function is smooth there
+    stats["runs"] += 1
+    stats["nontrivial"] += 1
+    c = np.array([-1 / 280, 4 / 105, -1 / 5, 4 / 5])
+    h = 1e-2
+
+    def fd(pt):
+        out = np.zeros(pt.size)
+        for i in range(pt.size):
+            e = np.zeros(pt.size)
+            e[i] = 1.0
+            out[i] = sum(ck * (f(pt + (4 - k) * h * e) - f(pt - (4 - k) * h * e)) for k, ck in enumerate(c)) / h
+        return out
+    gr = g(x.copy())
+    fv = f(x.copy())
+    if np.shape(gr) != x.shape:
+        fails.append(("C19", f"{name}_grad returns shape {np.shape(gr)} for x of shape {x.shape}"))
+        return {"function": name, "n": n}
+    if not np.isscalar(fv) and np.ndim(fv) != 0:
+        fails.append(("C19", f"{name} does not return a scalar"))
+    ref = fd(x.copy())
+    tol = 1e-6 * max(1.0, float(np.max(np.abs(ref))))
+    if np.max(np.abs(gr - ref)) > tol:
+        fails.append(("C19", f"{name}_grad differs from an 8th-order finite difference by {np.max(np.abs(gr - ref)):.2e} "
+                             f"at x={x.tolist()}"))
+    # purity: same array object updated in place and evaluated again == evaluation on a fresh copy
+    x2 = x.copy()
+    f(x2)
+    g(x2)
+    x2 += 0.37
+    if f(x2) != f(x2.copy()) or not np.array_equal(g(x2), g(x2.copy())):
+        fails.append(("C19", f"{name}: the value depends on earlier calls (array updated in place between two calls)"))
+    return {"function": name, "n": n}
+
+
 def describe(p, kw):
     return {"problem": p.name, "n": p.n, "x0": [float(v) for v in p.x0], "lb": [float(v) for v in p.lb],
             "ub": [float(v) for v in p.ub],
@@ -1083,6 +1133,7 @@ SCENARIOS = {
     "cauchy": (scenario_cauchy, {"C08"}),
     "subspace": (scenario_subspace, {"C09"}),
     "diag": (scenario_diag, {"C18"}),
+    "bench": (scenario_bench, {"C19"}),
 }
 
 
